@@ -106,7 +106,23 @@ func runCase(c *FuzzCase) (res FuzzResult) {
 			res.Outcome = "decoded"
 		}
 	}()
-	runtime.ReadMemStats(&m1)
+	runtime.ReadMemStats(&m1) // (the allocation bound is about one decode of the frame: measured before the second pass)
+	if res.Outcome != "panic" {
+		// the same frame with more bytes of the stream behind it (the next response): a length that reaches past the end of
+		// the frame then finds bytes to read instead of EOF
+		func() {
+			defer func() {
+				if r := recover(); r != nil {
+					res.Outcome = "panic"
+					res.Detail = "(with the next frame following in the stream) " + fmt.Sprint(r)
+				}
+			}()
+			next := append(append([]byte{}, frame...), 0, 0, 0, 60)
+			next = append(next, bytes.Repeat([]byte{0, 0, 0, 7, 1, 2, 3, 4, 5, 6}, 6)...)
+			_, m2, _ := protocol.ReadResponse(bufio.NewReader(bytes.NewReader(next)), protocol.ApiKey(c.ApiKey), int16(c.V))
+			runtime.KeepAlive(m2)
+		}()
+	}
 	runtime.KeepAlive(msg)
 	a := int64(m1.TotalAlloc - m0.TotalAlloc)
 	if a > 1<<31-1 {
